@@ -1428,6 +1428,9 @@ func (e *BigMessage) ReadAll() ([]byte, error) {
 		if n != 0 && errors.As(err, &ne) && ne.Timeout() {
 			continue
 		}
+		// The remainder of the message is unknown from here on. Reads
+		// would continue amid the payload without a connection reset.
+		c.toOffline()
 		return nil, err
 	}
 }
